@@ -41,6 +41,13 @@ func refCaseRandom(r *rand.Rand, maxPaths int, o SetupOpts, hiddenRate int) *Cas
 	h = append(h, hist.Op{Kind: "imports", F: 0})
 	tags := []string{fmt.Sprintf("paths=%d", len(paths)), fmt.Sprintf("prefix=%v", rc.Prefix != ""), fmt.Sprintf("local=%v", local != "")}
 	tags = append(tags, refAnonTags(rc, setup)...)
+	for _, i := range refs {
+		if SymbolThenDigit(paths[i]) {
+			// a referenced path whose last element is symbol(s)+digit...: _3rd, .2fa, -9lives, é9x
+			tags = append(tags, "path=symbol-then-digit")
+			break
+		}
+	}
 	return &Case{Hist: h, Stream: "random", NonTrivial: len(paths) > 1,
 		Meta: map[string]interface{}{"rc": rc},
 		Tags: tags}
